@@ -5,10 +5,13 @@ package interp
 // the trusted base of the checks that hit it (recorded in Result.Stubs).
 
 import (
+	"encoding/json"
 	"fmt"
 	"go/types"
 	"math"
+	"net/url"
 	"regexp"
+	"sort"
 	"strconv"
 	"strings"
 	"time"
@@ -439,6 +442,21 @@ func init() {
 	reg("strings.Index", func(fr *frame, a []value) value { return fr.i.strIndex(a[0], a[1]) })
 	reg("strings.Contains", func(fr *frame, a []value) value {
 		i := fr.i
+		if r, ok := a[0].(*Rope); ok {
+			// formatted message with symbolic operands: a concrete needle is looked
+			// for in the literal text only (it is assumed not to arise from operands)
+			needle := mustString(a[1], "strings.Contains on a formatted message")
+			i.stub("strings.Contains on a formatted message: literal parts only")
+			lit := ""
+			for _, p := range r.parts {
+				if p.verb == "" && p.raw == nil {
+					lit += p.lit
+				} else {
+					lit += "\x00"
+				}
+			}
+			return strings.Contains(lit, needle)
+		}
 		if s, ok := a[0].(string); ok {
 			if p, ok := a[1].(string); ok {
 				return strings.Contains(s, p)
@@ -779,13 +797,13 @@ func init() {
 	reg("strconv.AppendQuote", func(fr *frame, a []value) value {
 		s, ok := a[1].(string)
 		if !ok {
-			panic(unsupported{"strconv.AppendQuote of symbolic string (use structured messages)"})
+			return append(a[0].([]value), ropeElem{&Rope{[]ropePart{{verb: "%q", arg: a[1]}}}})
 		}
 		return append(a[0].([]value), strBytes(strconv.Quote(s))...)
 	})
 	reg("strconv.AppendQuoteRune", func(fr *frame, a []value) value {
-		if _, ok := a[1].(*Sym); ok {
-			panic(unsupported{"strconv.AppendQuoteRune of symbolic rune (use structured messages)"})
+		if sr, ok := a[1].(*Sym); ok {
+			return append(a[0].([]value), ropeElem{&Rope{[]ropePart{{verb: "%q", arg: sr}}}})
 		}
 		return append(a[0].([]value), strBytes(strconv.QuoteRune(rune(asInt64(a[1]))))...)
 	})
@@ -890,6 +908,43 @@ func init() {
 	})
 	reg("(*regexp.Regexp).String", func(fr *frame, a []value) value {
 		return nativeOf(a[0]).(*regexp.Regexp).String()
+	})
+
+	// ---------------- encoding/json (native on concrete data) ----------------
+	reg("encoding/json.Unmarshal", func(fr *frame, a []value) value {
+		i := fr.i
+		data, ok := toNative(a[0])
+		if !ok {
+			panic(unsupported{"json.Unmarshal of symbolic data"})
+		}
+		b, _ := data.([]byte)
+		if sl, isS := data.([]string); isS && len(sl) == 0 {
+			b = []byte{}
+		}
+		target := a[1].(iface)
+		ptr, isPtr := target.v.(*value)
+		pt, isPT := target.t.Underlying().(*types.Pointer)
+		if !isPtr || !isPT {
+			panic(unsupported{"json.Unmarshal target " + target.t.String()})
+		}
+		if _, isIface := pt.Elem().Underlying().(*types.Interface); !isIface {
+			panic(unsupported{"json.Unmarshal into " + pt.Elem().String() + " (reflection-driven decoding)"})
+		}
+		var out interface{}
+		if err := json.Unmarshal(b, &out); err != nil {
+			return i.newError(err.Error())
+		}
+		*ptr = i.jsonToValue(out)
+		return iface{}
+	})
+
+	reg("net/url.Parse", func(fr *frame, a []value) value {
+		i := fr.i
+		_, err := url.Parse(mustString(a[0], "url.Parse"))
+		if err != nil {
+			return tuple{(*value)(nil), i.newError(err.Error())}
+		}
+		return tuple{nativePtr("url"), iface{}} // opaque: callers only look at the error
 	})
 
 	// ---------------- cron / time (native on concrete data) ----------------
@@ -1241,4 +1296,39 @@ func ParseQuotedRune(msg string) (rune, bool) {
 		return 0, false
 	}
 	return r, true
+}
+
+var emptyIface = types.NewInterfaceType(nil, nil).Complete()
+
+// jsonToValue imports a decoded JSON value as an interface{} value.
+func (i *interpreter) jsonToValue(x interface{}) value {
+	switch v := x.(type) {
+	case nil:
+		return iface{}
+	case bool:
+		return iface{t: types.Typ[types.Bool], v: v}
+	case float64:
+		return iface{t: types.Typ[types.Float64], v: v}
+	case string:
+		return iface{t: types.Typ[types.String], v: v}
+	case []interface{}:
+		out := make([]value, len(v))
+		for k := range v {
+			out[k] = i.jsonToValue(v[k])
+		}
+		return iface{t: types.NewSlice(emptyIface), v: out}
+	case map[string]interface{}:
+		m := &amap{}
+		keys := make([]string, 0, len(v))
+		for k := range v {
+			keys = append(keys, k)
+		}
+		sort.Strings(keys)
+		for _, k := range keys {
+			m.keys = append(m.keys, k)
+			m.vals = append(m.vals, i.jsonToValue(v[k]))
+		}
+		return iface{t: types.NewMap(types.Typ[types.String], emptyIface), v: m}
+	}
+	panic(unsupported{fmt.Sprintf("jsonToValue %T", x)})
 }
